@@ -217,7 +217,7 @@ def minimise(pid, case, sig, camp, budget_s=25.0, jobs=1):
 
 
 def write_replay(pid, sig, case, orig_case, result_digest, excerpt, steps):
-    d = os.path.join(HERE, 'replays', pid)
+    d = os.path.join(os.environ.get('VERIF_REPLAY_DIR', os.path.join(HERE, 'replays')), pid)
     os.makedirs(d, exist_ok=True)
     name = hashlib.sha1(sig.encode()).hexdigest()[:12] + '.json'
     path = os.path.join(d, name)
@@ -342,8 +342,9 @@ def check(pid, tier, seed, jobs, budget_s=None, out=sys.stdout):
         'assumptions': getattr(camp, 'ASSUMPTIONS', []),
         'wall_s': round(wall, 2), 'violations': sum(len(v) for s, v in by_sig.items() if s in new_sigs),
     }
-    os.makedirs(os.path.join(HERE, 'evidence'), exist_ok=True)
-    with open(os.path.join(HERE, 'evidence', pid + '.json'), 'w') as f:
+    evdir = os.environ.get('VERIF_EVIDENCE_DIR', os.path.join(HERE, 'evidence'))
+    os.makedirs(evdir, exist_ok=True)
+    with open(os.path.join(evdir, pid + '.json'), 'w') as f:
         json.dump(ev, f, indent=1, sort_keys=True, default=str)
     # ---- report
     print('[%s %s seed=%d] cases=%d invocations=%d distinct_nontrivial=%d sim_time=%.1fs wall=%.1fs skipped=%d faults=%s' % (
